@@ -164,6 +164,57 @@ theorem hasCycle_sound (h : Hist) (hc : Spec.Rev.hasCycle h = true) : HasCycle (
     unfold ids
     exact List.mem_map.mpr ⟨rv, hm, he⟩
 
+/-- **On a finite graph "no directed cycle" and "admits a rank function" are the same thing**
+(the other half is `acyclic_no_cycle`): rank a vertex by the number of vertices reachable from
+its successors. -/
+theorem no_cycle_acyclic (succ : Id → List Id) (ids : List Id)
+    (hclosed : ∀ x, ∀ p ∈ succ x, p ∈ ids ∧ x ∈ ids) (hno : ¬ HasCycle succ ids) : Acyclic succ := by
+  let below : Id → Id → Bool := fun x y => @decide (∃ q ∈ succ x, Reach succ q y) (Classical.propDecidable _)
+  refine ⟨fun x => (ids.filter (below x)).length, ?_⟩
+  intro i p hp
+  apply filter_length_lt (w := p)
+  · intro y hy
+    have hy' : ∃ q ∈ succ p, Reach succ q y := by simpa [below] using hy
+    obtain ⟨q, hq, hr⟩ := hy'
+    have : ∃ q' ∈ succ i, Reach succ q' y := ⟨p, hp, Reach.step hq hr⟩
+    simpa [below] using this
+  · exact (hclosed i p hp).1
+  · have : ∃ q' ∈ succ i, Reach succ q' p := ⟨p, hp, Reach.refl p⟩
+    simpa [below] using this
+  · have hnp : ¬ ∃ q ∈ succ p, Reach succ q p := by
+      rintro ⟨q, hq, hr⟩
+      apply hno
+      obtain ⟨S, h1, h2, h3⟩ := reach_support hr
+      have hsucc : ∀ x ∈ S, ∃ q' ∈ succ x, q' ∈ S := by
+        intro x hx
+        rcases h3 x hx with e | h'
+        · subst e; exact ⟨q, hq, h1⟩
+        · exact h'
+      refine ⟨S, List.ne_nil_of_mem h1, fun x hx => ⟨?_, hsucc x hx⟩⟩
+      obtain ⟨q', hq', _⟩ := hsucc x hx
+      exact (hclosed x q' hq').2
+    simpa [below] using hnp
+
+/-- **C15, "an acyclic history is never rejected", stated with cycles**: a well-formed history
+without a directed cycle among its links passes `_detect_cycles`. -/
+theorem no_cycle_accepted {h : Hist} {m1 : LMap} (o : LoadOpts) (h1 : loadPhase1 h = .ok m1)
+    (hu : (h.map (·.id)).Nodup) (hd : ∀ r ∈ h, ∀ d ∈ r.down, d ∈ h.map (·.id))
+    (hno : ¬ HasCycle m1.allDownOf m1.ids) : detectCycles (withNorm o m1) = .ok () := by
+  have G := graphFacts_of_phase1 o h1 hu hd
+  have e : ∀ i, (withNorm o m1).allDownOf i = m1.allDownOf i :=
+    fun i => allDownOf_mapRevs m1 _ (withNorm_keeps o m1) i
+  have eids : (withNorm o m1).ids = m1.ids := ids_mapRevs m1 _ (fun r => (withNorm_keeps o m1 r).1)
+  apply acyclic_accepted o h1 hu hd
+  apply no_cycle_acyclic m1.allDownOf m1.ids _ hno
+  intro x p hp
+  constructor
+  · have := G.refs_closed x p (by rw [e x]; exact hp)
+    rw [eids] at this; exact this
+  · apply Classical.byContradiction
+    intro hx
+    rw [allDownOf_nil m1 x hx] at hp
+    simp at hp
+
 /-- **…and conversely: when the history contains a directed cycle the oracle says "cyclic"**, so a
 "no cycle" verdict means the history as written is acyclic (and the implementation must accept
 it).  Among the members of a self-sustaining set take one with the fewest members of the set
